@@ -442,7 +442,7 @@ def filter_thru(flux, waveimg=None, wset=None, mask=None,
     logdiff = np.absolute(logdiff)
     if mask is not None:
         flux_interp = djs_maskinterp(flux, mask, axis=0)
-    res = np.zeros((nTrace, len(ffiles)), dtype=flux.dtype)
+    res = np.zeros((nTrace, len(ffiles)), dtype=np.result_type(flux.dtype, np.float32))
     for i, f in enumerate(ffiles):
         filter_data = ascii.read(f, comment='#.*', names=('lam', 'respt',
                                  'resbig', 'resnoa', 'xatm'))
